@@ -352,7 +352,14 @@ def probe_ops(subj, vec):
     k = small[0]
     room = (subj.param.max_byte_num - subj.param.min_byte_num) // subj.sizes[k]
     if room > 300:
-        return None
+        # a wide range: jump close to the ceiling with ONE bulk edit (by the reference sizes), then walk over it item by item
+        body = sum(subj.ident(x)[1] for x in vec)
+        big = max(range(len(subj.pool)), key=lambda i: subj.sizes[i])
+        n = (subj.param.max_byte_num - body) // subj.sizes[big] - 3
+        if n < 1 or n > 7000 or subj.param.max_byte_num >= CAP:
+            return None
+        return [['extend', 0, 0, [0, 0], [[big + 1, subj.sizes[big]]] * n]] + \
+               [['append', 0, 0, [big + 1, subj.sizes[big]], []] for _ in range(8)]
     ops = [['append', 0, 0, [k + 1, subj.sizes[k]], []] for _ in range(room + 3)]
     ops += [['pop', -1, 0, [0, 0], []] for _ in range(room + len(vec) + 3)]
     return ops
@@ -493,6 +500,7 @@ def run_traces(rep, thorough):
     tid = 0
     hist_len = 30 if thorough else 18
     per_class = 12 if thorough else 4
+    heavy = set()
     for subj in subs:
         for vec in start_vectors(subj, rng, per_class):
             tid += 1
@@ -506,6 +514,12 @@ def run_traces(rep, thorough):
                 if ev['tracked'] != sum(p[1] for p in ev['items']) and not drifted:
                     drifted = True
                     probe = probe_ops(subj, vec)
+                    if probe and probe[0][0] == 'extend':
+                        # a bulk probe puts thousands of items into every following trace line: one per class, three per run
+                        if subj.name in heavy or len(heavy) >= 3:
+                            probe = None
+                        else:
+                            heavy.add(subj.name)
                     for pop in probe or []:
                         events.append(subj.op_event(tid, vec, pop))
                     break
@@ -529,7 +543,6 @@ def run(rep):
     rep.assumptions += [
         'reference item sizes are measured on real compose() output of one-item vectors (numeric/opaque: the declared width)',
         'protocol ceilings above 2e9 are capped in the trace (never approached)',
-        'slices with a step other than 1 are not generated',
         'the Tiny* replay subjects are harness-defined subclasses of the library containers (same ArrayBase code)']
 
 
